@@ -38,6 +38,26 @@ def check_case(ctx, case):
         except Exception:  # noqa
             pass
         ctx.note("prior-wrapper-alive")
+    if prior is not None:
+        # … and the same file read as a linear fragment (same name, same letters) is typed on its own too: what a live
+        # wrapper of the circular plasmid found is not an answer about the fragment
+        def as_fragment():
+            lr = impl.SeqRecord(impl.Seq(wd), id="r0", name="Lr0", annotations={"topology": "linear"})
+            try:
+                return bool(cls(lr).is_valid())
+            except Exception as e:  # noqa
+                return "exc:" + type(e).__name__
+        lin0 = as_fragment()
+        twin = cls(impl.mk_record(impl.CRec(0, wd, [], [])))
+        try:
+            twin.is_valid() and twin.target_sequence()
+        except Exception:  # noqa
+            pass
+        lin1 = as_fragment()
+        if lin0 != lin1:
+            ctx.fail("{} on {!r} read as a linear fragment answers {} — and {} while a wrapper of the same class around the "
+                     "circular plasmid of the same name is alive".format(cls.__name__, wd, lin0, lin1), case)
+        del twin
     res = T.evaluate(cls, wd)
     del prior
     ctx.note("verdict:" + res[0])
@@ -171,6 +191,28 @@ def run(ctx):
         wd = inst + gen.rnd(rng, rng.randint(2, 8))
         ctx.guard(check_degenerate, {"enz": str(enz), "kind": kind, "sig": sig, "deg": True,
                                      "word": gen.rot(wd, rng.randrange(len(wd)))})
+    # a plasmid with an uncertain base call written at a degenerate position of one of its sites, as a narrower ambiguity
+    # code (CCKG where the site is CCDG): the enzyme has no site there, whatever the class answers
+    import re as _re
+    wide = [e_ for e_ in degen if any(c_ in "BDHVN" for c_ in e_.site)]
+    ctx.extra["cov_sites_with_wide_codes"] = sorted(str(e_) for e_ in wide)
+    for _ in range(ctx.budget(30, 800) if wide else 0):
+        enz = rng.choice(wide)
+        k = abs(enz.ovhg)
+        kind = rng.choice("MV")
+        sig = [gen.rnd(rng, k), gen.rnd(rng, k)]
+        base = boot.AbstractModule if kind == "M" else boot.AbstractVector
+        cls = type("PartD", (boot.AbstractPart, base), {"cutter": enz, "signature": tuple(sig)})
+        inst, _g = gen.instantiate(rng, cls.structure(), runlen=rng.choice([0, 3, 6]))
+        wd = inst + gen.rnd(rng, rng.randint(2, 8))
+        m_ = _re.compile("".join("[" + gen.IUPAC[c_] + "]" for c_ in enz.site)).search(wd)
+        d_ = rng.choice([i_ for i_, c_ in enumerate(enz.site) if c_ in "BDHVN"])
+        narrower = [c_ for c_ in "RYSWKMBDHV" if c_ != enz.site[d_] and set(gen.IUPAC[c_]) < set(gen.IUPAC[enz.site[d_]])]
+        if m_ and narrower:
+            w2 = wd[:m_.start() + d_] + rng.choice(narrower) + wd[m_.start() + d_ + 1:]
+            ctx.guard(check_degenerate, {"enz": str(enz), "kind": kind, "sig": sig, "deg": True,
+                                         "word": gen.rot(w2, rng.randrange(len(w2)))})
+            ctx.note("ambiguity-code-in-a-site")
     for _ in range(ctx.budget(60, 2000)):
         enz = rng.choice(three)
         k = abs(enz.ovhg)
